@@ -6,8 +6,8 @@ cd /verif
 for id in $ids; do
   [ -f pv/checks/$(echo $id | tr A-Z a-z).py ] || continue
   s=$(date +%s)
-  VERIF_SEED=$seed PYTHONPATH=/verif:/verif/.deps /venv/bin/python -m pv.run $id --tier $tier > /var/tmp/runall_$id.log 2>&1; rc=$?
+  VERIF_SEED=$seed PYTHONPATH=/verif:/verif/.deps /venv/bin/python -m pv.run $id --tier $tier > /var/tmp/runall_${id}_${tier}_${seed}.log 2>&1; rc=$?
   e=$(date +%s)
-  echo "$id rc=$rc $((e-s))s $(grep -v conda /var/tmp/runall_$id.log | grep "tier=$tier" | sed 's/.*evaluations/evaluations/')"
-  grep -v conda /var/tmp/runall_$id.log | grep "^violation\|HARNESS\|^NOTE" | cut -c1-200 | head -8
+  echo "$id rc=$rc $((e-s))s $(grep -v conda /var/tmp/runall_${id}_${tier}_${seed}.log | grep "tier=$tier" | sed 's/.*evaluations/evaluations/')"
+  grep -v conda /var/tmp/runall_${id}_${tier}_${seed}.log | grep "^violation\|HARNESS\|^NOTE" | cut -c1-200 | head -8
 done
